@@ -373,7 +373,13 @@ Definition expectation_ok (evs dels : list event) (x : sx) : bool :=
         end
       else true
   | SL [t; a] =>
-      if sx_is "expect-last" t then
+      if sx_is "expect-line" t then
+        (* this very reply line was written *)
+        match sx_bytes a with
+        | Some l => existsb (bytes_eqb l) (wire_lines (all_wire evs))
+        | None => false
+        end
+      else if sx_is "expect-last" t then
         match sx_N a, rev codes with
         | Some n, c :: _ => (c =? n)%N
         | _, _ => false
